@@ -70,7 +70,13 @@ CancelFates(h) ==
   LET d == cfg.procs[h]  p == pst[h] IN
     (IF p.intSent THEN {"sig2"} ELSE {})
     \cup (IF p.killSent /\ (d.ignint \/ ~d.canint) THEN {"sig9"} ELSE {})
-AllowedFates(h) == (IF cfg.procs[h].fate # "hang" THEN {cfg.procs[h].fate} ELSE {}) \cup CancelFates(h)
+(* The scripted end of an "untilcancel" child is only reachable after cancelAllJobs has returned (the harness lets it *)
+(* go then).  If such a child was in the group when the cancellation took effect and may be interrupted, the SIGINT *)
+(* was sent to it before that, so it cannot have met its scripted end: it must have been signalled.               *)
+ScriptedAllowed(h) ==
+  /\ cfg.procs[h].fate # "hang"
+  /\ cfg.procs[h].untilcancel => (cancelled /\ ~pst[h].intSent)
+AllowedFates(h) == (IF ScriptedAllowed(h) THEN {cfg.procs[h].fate} ELSE {}) \cup CancelFates(h)
 
 ---------------------------------------------------------------------------
 (* addJob: call-start, the critical section, call-end *)
@@ -339,7 +345,7 @@ QueueInvariants == AtMostOnce /\ ExactlyOnce /\ LaneBound /\ BgBound /\ Completi
 (* once every job has finished) destroys the                                                                    *)
 (* queue, a canceller thread (cfg.auxcancel), jobs following their scripts, children following their definitions *)
 CONSTANTS MCConfig, NotifyOnAdd, DrainPriority
-HasHang == \E h \in Procs : cfg.procs[h].fate = "hang"    \* such a queue is destroyed only after cancellation
+HasHang == \E h \in Procs : cfg.procs[h].fate = "hang" \/ cfg.procs[h].untilcancel    \* such a queue is destroyed only after cancellation
 ClientNext == LET rest == SelectSeq(cfg.client, LAMBDA j : jst[j] = "new") IN IF rest = <<>> THEN "" ELSE Head(rest)
 ClientDone == ClientNext = "" /\ cadd = {}
 AllJobsFinished == \A j \in Jobs : jst[j] = "finished"     \* cfg.waitdone: the client waits for its jobs, as the build engine does
